@@ -118,4 +118,66 @@ def rot_frame(X, salt=0):
     kind = (int(salt) + n + (X.shape[1] if X.ndim > 1 else 1)) % 5
     index = [None, pd.RangeIndex(300, 300 + n), pd.RangeIndex(0, 3 * n, 3), pd.date_range("2021-03-01", periods=n, freq="D"),
              pd.Index([i // 2 for i in range(n)], dtype="int64")][kind]          # the last one: sorted labels with repeated values
-    return pd.DataFrame(X, index=index)
+    df = pd.DataFrame(X, index=index)
+    # column labels rotate as well: default positions / strings / one label repeated for every column (two equally named sensor blocks
+    # put side by side): columns are addressed by position everywhere
+    ck = (int(salt) + 2 * n) % 3
+    if df.shape[1] >= 2 and ck:
+        df.columns = [f"v{j}" for j in range(df.shape[1])] if ck == 1 else ["value"] * df.shape[1]
+    return df
+
+
+def _other_value(v):
+    """A legal value of the same kind as the nested scorer parameter v, but different from it (None -> not produced here)."""
+    if isinstance(v, bool) or v is None:
+        return None
+    if isinstance(v, (int, float, np.integer, np.floating)):
+        return float(v) + 0.75
+    if isinstance(v, np.ndarray) and v.dtype.kind in "fi":
+        return v.astype(float) + 0.75
+    if isinstance(v, tuple) and len(v) == 2:          # (mean, variance / covariance)
+        m, c = _other_value(v[0]), v[1]
+        if m is None:
+            return None
+        c2 = (np.asarray(c, dtype=float) * 1.5) if isinstance(c, np.ndarray) else (float(c) * 1.5 if isinstance(c, (int, float)) else None)
+        return None if c2 is None else (m, c2)
+    return None
+
+
+def nested_route(det):
+    """The same configuration reached another way: a clone of `det` whose scorer parameters (nested `<scorer>__param`-like
+    entries of get_params that are plain numbers / arrays / (mean, var) pairs) were first set to OTHER values and then back to the
+    target values, both through nested set_params.  By C10 (a set_params-configured object equals a freshly constructed one) the
+    result must behave exactly like `det`; a component that keeps a private copy of the scorer taken before the nested update
+    does not.  Returns `det` itself when it has no such parameter or the route is not available."""
+    try:
+        params = det.get_params(deep=True)
+        other = {}
+        for k, v in params.items():
+            if "__" not in k or hasattr(v, "get_params"):
+                continue
+            o = _other_value(v)
+            if o is None and v is None and k.endswith("__param"):       # optimal-parameter cost: some fixed parameter of its kind
+                owner = type(params.get(k[: -len("__param")])).__name__
+                o = {"L2Cost": 0.75, "GaussianVarCost": (0.25, 1.5), "GaussianCovCost": (0.25, 1.5)}.get(owner)
+            if o is not None:
+                other[k] = o
+        keys = list(other)
+        if not keys:
+            return det
+        d2 = det.clone()
+        d2.set_params(**other)
+        d2.set_params(**{k: params[k] for k in keys})
+        return d2
+    except Exception:           # noqa: BLE001 - the route is an extra, never a reason to fail
+        return det
+
+
+_route_counter = [0]
+
+
+def alternate_route(det):
+    """Every second detector handed in is replaced by its nested_route() twin (the drivers' class-level calls alternate between the
+    plainly constructed detector and the one re-configured through nested set_params)."""
+    _route_counter[0] += 1
+    return nested_route(det) if _route_counter[0] % 2 == 0 else det
